@@ -2375,10 +2375,12 @@ class quantized_relu(base_quantizer.BaseQuantizer):  # pylint: disable=invalid-n
         str(self.integer.numpy() if isinstance(self.integer, tf.Variable
                                               ) else self.integer))
 
+    # Arguments are printed positionally, so every argument that precedes a
+    # printed one has to be printed too.
     flags = [str(self.bits), integer_bits]
-    if self.use_sigmoid or self.use_stochastic_rounding:
+    if self.use_sigmoid or self.negative_slope or self.use_stochastic_rounding:
       flags.append(str(int(self.use_sigmoid)))
-    if self.negative_slope:
+    if self.negative_slope or self.use_stochastic_rounding:
       flags.append(str(self.negative_slope))
     if self.use_stochastic_rounding:
       flags.append(str(int(self.use_stochastic_rounding)))
